@@ -106,12 +106,16 @@ def flatten (v : Val) : Val :=
     present (`if let Some(..)`) -/
 def hintConditional : List String := ["blueValues", "otherBlues", "familyBlues", "familyOtherBlues"]
 
+/-- one assignment of upconversion.rs:184-202 -/
+def hintStep (hint : List (String × Val)) (acc : List (String × Val)) (row : String × String) :
+    List (String × Val) :=
+  match lookup hint row.1 with
+  | some v => setKey acc row.2 (some (flatten v))
+  | none => if hintConditional.contains row.1 then acc else setKey acc row.2 none
+
 def applyHints (rows : List (String × String)) (hint : List (String × Val))
     (info : List (String × Val)) : List (String × Val) :=
-  rows.foldl (fun acc (src, dst) =>
-    match lookup hint src with
-    | some v => setKey acc dst (some (flatten v))
-    | none => if hintConditional.contains src then acc else setKey acc dst none) info
+  rows.foldl (hintStep hint) info
 
 structure Input where
   fmt : Nat
